@@ -49,6 +49,8 @@ class SymEval:
         self.env = {}
         self.path = []  # facts known on the current path (from guarded exits / branches)
         self.returns = []  # (guard E, value E, node)
+        self.return_envs = []  # attribute state at each return (parallel to self.returns)
+        self.falls_through = True
         self.raises = []  # (guard E, node)
         self.snap = {}  # id(stmt) -> (env copy, path copy)
         self.calls = []  # (node, guard E)
@@ -460,9 +462,13 @@ class SymEval:
             sub.run()
         except AnalysisError:
             return None
-        if same_obj and len(sub.returns) <= 1:
-            for k, v in sub.env.items():
+        if same_obj:
+            keys = set(sub.env) | {k for e in sub.return_envs for k in e}
+            for k in sorted(keys):
                 if k.startswith(callee_self + ".") and "[" not in k:
+                    v = sub.exit_value(k) if len(sub.returns) > 1 or (sub.returns and sub.falls_through) else sub.env.get(k)
+                    if v is None:
+                        continue
                     ck = self.selfname + k[len(callee_self):]
                     if self.env.get(ck) != v:
                         self.env[ck] = v
@@ -483,10 +489,24 @@ class SymEval:
     # --------------------------------------------------------------- statements
     def run(self):
         try:
-            self.block(self.func.node.body)
+            self.falls_through = not self.block(self.func.node.body)
         except Exit:
             pass
         return self
+
+    def exit_value(self, key):
+        """value of an attribute when the function is left, over every way of leaving it normally (the returns under
+        their path conditions, then the fall-through); None when no exit assigns it"""
+        if not any(key in e for e in self.return_envs) and not (self.falls_through and key in self.env):
+            return self.env.get(key)
+        val = self.env.get(key, S.sym(key)) if self.falls_through else None
+        for (guard, _, _), env in reversed(list(zip(self.returns, self.return_envs))):
+            v = env.get(key, S.sym(key))
+            if val is None or (guard.is_const and S.truthy(guard)):
+                val = v
+            elif v != val:
+                val = S.cond(guard, v, val)
+        return val
 
     def guard(self):
         return S.eand(*self.path) if self.path else S.TRUE
@@ -621,6 +641,7 @@ class SymEval:
     def s_Return(self, st):
         v = self.expr(st.value) if st.value is not None else S.NONE
         self.returns.append((self.guard(), v, st))
+        self.return_envs.append({k: e for k, e in self.env.items() if "." in k})
         return True
 
     def s_Raise(self, st):
